@@ -18,6 +18,11 @@ def run(c):
                 return c['id'], 'DOES-NOT-APPLY', []
             s = s.replace(old, new)
         open(p, 'w').write(s)
+        for file2, old, new in c.get('edits_other', []):
+            p2 = os.path.join(tmp, file2); s2 = open(p2).read()
+            if s2.count(old) != 1:
+                return c['id'], 'DOES-NOT-APPLY', []
+            open(p2, 'w').write(s2.replace(old, new))
         cmd = [sys.executable, os.path.join(HERE, 'run.py'), '--repo', tmp, '--out-dir', out] + sum([['-p', x] for x in c['props']], [])
         r = subprocess.run(cmd, stdout=subprocess.PIPE, stderr=subprocess.STDOUT, text=True)
         bad = [l.strip()[:300] for l in r.stdout.splitlines() if 'violated' in l or 'extraction failed' in l or 'Traceback' in l]
